@@ -277,6 +277,10 @@ pub fn run_session(sess: &Session) -> Vec<Value> {
             if let Some((c, text, det)) = pending.take() {
                 let mut ev = json!({"ev": "cmd", "c": c, "text": text, "err": lines(&err_buf), "out": codepoints(&out_buf),
                                     "nin": nin, "bps": last_bps, "det": det, "post": []});
+                if let Some(chars) = c.get("chars") {
+                    // C14: the specification parses the raw line itself
+                    ev["chars"] = chars.clone();
+                }
                 sample_json(&mut ev, &reg, pc, cc, $memd);
                 trace.push(ev);
                 last_cmd = Some(trace.len() - 1);
@@ -341,7 +345,7 @@ pub fn run_session(sess: &Session) -> Vec<Value> {
             Event::Input(_) => nin += 1,
             Event::Detach => {
                 flush_loop!();
-                let is_quit = pending.as_ref().map(|p| p.0["n"] == "quit").unwrap_or(false);
+                let is_quit = pending.as_ref().map(|p| p.0["n"] == "quit" || p.0["n"] == "probe").unwrap_or(false);
                 if is_quit {
                     pending.as_mut().unwrap().2 = true;
                 } else {
